@@ -54,6 +54,10 @@ pub struct FCase {
     /// end (`first-` / `-suffix` form), the other ranges near its start. Not for `Shape::Full`.
     #[serde(default)]
     pub huge: u8,
+    /// another request header that is satisfied / cannot apply: 1 If-Match: *, 2 If-None-Match:
+    /// other tag, 3 a matching If-Range (with a Range), 4 If-Unmodified-Since later
+    #[serde(default)]
+    pub noop: u8,
 }
 
 impl FCase {
@@ -95,11 +99,18 @@ impl FCase {
                 (l, ReqSpec::get().with("range", format!("bytes={}", v.join(","))))
             }
         };
+        let req = match self.noop {
+            1 => req.with("if-match", "*"),
+            2 => req.with("if-none-match", "\"zzz\""),
+            3 if req.has("range") => req.with("if-range", "\"c07\""),
+            4 => req.with("if-unmodified-since", crate::reqgen::http_date(crate::reqgen::T0 + 86_400)),
+            _ => req,
+        };
         (
             EntitySpec {
                 len: l,
-                etag: None,
-                mtime: Mtime::None,
+                etag: if self.noop > 0 { Some(crate::util::Bs::s("\"c07\"")) } else { None },
+                mtime: if self.noop == 4 { Mtime::At(crate::reqgen::T0, 0) } else { Mtime::None },
                 headers: vec![],
                 plan,
                 faults: if with_faults { self.faults.clone() } else { vec![] },
@@ -396,6 +407,7 @@ pub fn enumerate(len: u32, max_chunks: usize, extra_polls: &[usize], mut f: impl
                                         counting_hint,
                                         unfused_errors,
                                         huge,
+                                        noop: 0,
                                     });
                                 }
                             }
@@ -421,9 +433,9 @@ pub fn random_strategy() -> BoxedStrategy<FCase> {
         0u8..4,
         proptest::bool::weighted(0.3),
         proptest::bool::weighted(0.3),
-        prop_oneof![3 => Just(0u8), 1 => Just(1u8), 1 => Just(2u8)],
+        (prop_oneof![3 => Just(0u8), 1 => Just(1u8), 1 => Just(2u8)], prop_oneof![4 => Just(0u8), 1 => 1u8..=4]),
     )
-        .prop_map(|(chunks, shape, filler, faults, extra_polls, tail, segments, counting_hint, unfused_errors, huge)| {
+        .prop_map(|(chunks, shape, filler, faults, extra_polls, tail, segments, counting_hint, unfused_errors, (huge, noop))| {
             let parts = match shape {
                 Shape::Multi(n) => n as u32,
                 _ => 1,
@@ -451,6 +463,7 @@ pub fn random_strategy() -> BoxedStrategy<FCase> {
                 unfused_errors,
                 extra_polls,
                 huge: if shape == Shape::Full { 0 } else { huge },
+                noop,
             }
         })
         .boxed()
